@@ -144,7 +144,15 @@ struct TaskCtx {
   int id;
   uintptr_t stack_lo, stack_hi;
   uint64_t events;
+  // the op this task has in flight (tasks interleave, so this cannot be process-global)
+  int cur_op = -1, cur_kind = 0;
+  char cur_fn[64] = {0};
+  int op_allocs = 0, fail_at = 0;
+  bool fault_fired = false;
+  int open_streams = 0;
+  long io_steps = 0, io_budget = 0;
 };
+void publish_ctx(TaskCtx* t);   // make t's op the one blamed for a crash / violation (called when t gets the CPU)
 extern thread_local TaskCtx* t_task;
 extern bool g_threads_mode;      // baton scheduler + race detector active
 extern bool g_in_op;             // a library call issued by an op is in flight (single-task engines)
